@@ -23,6 +23,9 @@ SPIN_LIMIT = 50000    # clock reads of one thread between two blocking waits
 CUR = None            # the World of the execution in progress (one per process at a time)
 
 
+_FREE = object()          # lock owner value for 'not held' (None is the scheduler thread)
+
+
 class BusySpin(BaseException):
     """raised inside a controlled thread that keeps reading the clock without ever blocking"""
 
@@ -167,24 +170,62 @@ class VThread:
 
 
 class VLock:
-    """non-blocking-only lock: the library's single lock is on the default backend (replaced)"""
+    """lock in virtual time, owned by a logical thread (None = the scheduler thread, which runs the receive handlers and the
+    scripted main line).  A controlled thread that finds it taken waits; the scheduler thread lets the world go on until the
+    holder releases it (the holder is a controlled thread that is held or blocked inside the critical section)."""
+    reentrant = False
 
     def __init__(self):
-        self.held = False
+        self.owner = _FREE
+        self.count = 0
+
+    def _me(self):
+        w = CUR
+        return None if w is None else w.cur
+
+    def locked(self):
+        return self.owner is not _FREE
 
     def acquire(self, blocking=True, timeout=-1):
-        if self.held:
-            raise HarnessError("contended lock inside the controlled world")
-        self.held = True
+        me = self._me()
+        if self.owner is not _FREE and self.owner is me:
+            if self.reentrant:
+                self.count += 1
+                return True
+            raise HarnessError("a thread acquires a non-reentrant lock it already holds (deadlock)")
+        if self.owner is not _FREE:
+            if not blocking:
+                return False
+            w = CUR
+            if w is None:
+                raise HarnessError("contended lock outside a world")
+            if w.cur is not None:
+                while self.owner is not _FREE:
+                    w.wait_until(lambda: self.owner is _FREE, 1e9)
+            else:
+                n = 0
+                while self.owner is not _FREE:
+                    n += 1
+                    if n > 100000 or not w.step(w.now + 30.0):
+                        raise HarnessError("lock never released (deadlock)")
+        self.owner = me
+        self.count = 1
         return True
 
     def release(self):
-        self.held = False
+        self.count -= 1
+        if self.count <= 0:
+            self.owner = _FREE
+            self.count = 0
 
     __enter__ = acquire
 
     def __exit__(self, *a):
         self.release()
+
+
+class VRLock(VLock):
+    reentrant = True
 
 
 class VEvent:
@@ -211,7 +252,7 @@ class VEvent:
 
 vthreading.Thread = VThread
 vthreading.Lock = VLock
-vthreading.RLock = VLock
+vthreading.RLock = VRLock
 vthreading.Event = VEvent
 
 
